@@ -90,7 +90,7 @@ def explore_job(job):
         H = importlib.import_module("harness." + job["harness"])
         sc = H.make(job["family"], job["args"])
         tier = job.get("tier", "quick")
-        budget = job.get("budget_s") or sc.budget_s
+        budget = (job.get("budget_s") or sc.budget_s) * float(os.environ.get("VERIF_BUDGET_SCALE", "1"))
         eng = core.Engine(timeout_ms=sc.timeout_ms, max_decisions=sc.max_decisions,
                           max_paths=sc.max_paths, budget_s=budget,
                           check_definedness=sc.check_definedness)
